@@ -1,0 +1,378 @@
+//! Verification seams. This whole module is only compiled with
+//! `RUSTFLAGS="--cfg temporal_verif"`; ordinary builds never see it.
+//!
+//! It puts the few places where this crate meets its environment — the lock
+//! around the process-wide time-zone provider, the zoneinfo files, the system
+//! clock and the host time zone — behind one [`Env`] object that a simulator
+//! can install. Every method of [`Env`] defaults to the real behaviour, so a
+//! `temporal_verif` build with nothing installed behaves like a normal build.
+
+use alloc::boxed::Box;
+use alloc::string::String;
+use std::io::{self, Read};
+use std::path::Path;
+use std::sync::atomic::{AtomicPtr, Ordering};
+
+/// The environment seen by the crate. A simulator overrides what it wants to
+/// control; the defaults pass through to the operating system.
+pub trait Env: Sync {
+    /// A thread is about to try to take lock `lock` (`exclusive` is false for
+    /// the read side of a reader-writer lock, `blocking` is false for `try_*`).
+    fn before_lock(&self, _lock: usize, _exclusive: bool, _blocking: bool) {}
+    /// The attempt announced by `before_lock` finished.
+    fn after_lock(&self, _lock: usize, _exclusive: bool, _acquired: bool, _poisoned: bool) {}
+    /// A guard of `lock` was dropped (`panicking`: during unwinding).
+    fn after_unlock(&self, _lock: usize, _exclusive: bool, _panicking: bool) {}
+    /// A lazily initialised static is being dereferenced.
+    fn lazy_force(&self, _lazy: usize, _initialised: bool) {}
+    /// Open a zoneinfo file.
+    fn open(&self, path: &Path) -> io::Result<Box<dyn Read>> {
+        Ok(Box::new(std::fs::File::open(path)?))
+    }
+    /// Read the system clock.
+    fn now(&self) -> web_time::SystemTime {
+        web_time::SystemTime::now()
+    }
+    /// Ask the host for its time zone.
+    fn host_tz(&self) -> Result<String, ::iana_time_zone::GetTimezoneError> {
+        ::iana_time_zone::get_timezone()
+    }
+}
+
+struct Passthrough;
+impl Env for Passthrough {}
+static PASSTHROUGH: Passthrough = Passthrough;
+
+// A thin pointer to a leaked `&'static dyn Env` (null = pass-through).
+static ENV: AtomicPtr<&'static dyn Env> = AtomicPtr::new(core::ptr::null_mut());
+
+/// Installs `env` for the rest of the process (the previous one is leaked).
+pub fn install(env: &'static dyn Env) {
+    let slot: &'static mut &'static dyn Env = Box::leak(Box::new(env));
+    ENV.store(slot, Ordering::SeqCst);
+}
+
+#[inline]
+pub(crate) fn env() -> &'static dyn Env {
+    let p = ENV.load(Ordering::SeqCst);
+    if p.is_null() {
+        &PASSTHROUGH
+    } else {
+        // SAFETY: only ever set by `install` to a leaked, never freed box.
+        unsafe { *p }
+    }
+}
+
+/// Drop-in replacements for the `std::sync` items the crate uses. Everything
+/// not redefined here is std's own.
+pub mod sync {
+    use super::env;
+    use core::cell::UnsafeCell;
+    use core::ops::{Deref, DerefMut};
+    pub use std::sync::*;
+
+    /// `std::sync::Mutex` (poisoning included — it wraps one) that reports
+    /// every attempt, acquisition and release to the installed `Env`.
+    #[derive(Debug, Default)]
+    pub struct Mutex<T> {
+        inner: std::sync::Mutex<T>,
+    }
+    pub struct MutexGuard<'a, T> {
+        inner: Option<std::sync::MutexGuard<'a, T>>,
+        id: usize,
+    }
+    impl<T> Mutex<T> {
+        pub const fn new(t: T) -> Self {
+            Self { inner: std::sync::Mutex::new(t) }
+        }
+        fn id(&self) -> usize {
+            self as *const _ as *const u8 as usize
+        }
+        pub fn lock(&self) -> LockResult<MutexGuard<'_, T>> {
+            let id = self.id();
+            env().before_lock(id, true, true);
+            match self.inner.lock() {
+                Ok(g) => {
+                    env().after_lock(id, true, true, false);
+                    Ok(MutexGuard { inner: Some(g), id })
+                }
+                Err(p) => {
+                    env().after_lock(id, true, true, true);
+                    Err(PoisonError::new(MutexGuard { inner: Some(p.into_inner()), id }))
+                }
+            }
+        }
+        pub fn try_lock(&self) -> TryLockResult<MutexGuard<'_, T>> {
+            let id = self.id();
+            env().before_lock(id, true, false);
+            match self.inner.try_lock() {
+                Ok(g) => {
+                    env().after_lock(id, true, true, false);
+                    Ok(MutexGuard { inner: Some(g), id })
+                }
+                Err(TryLockError::Poisoned(p)) => {
+                    env().after_lock(id, true, true, true);
+                    Err(TryLockError::Poisoned(PoisonError::new(MutexGuard {
+                        inner: Some(p.into_inner()),
+                        id,
+                    })))
+                }
+                Err(TryLockError::WouldBlock) => {
+                    env().after_lock(id, true, false, false);
+                    Err(TryLockError::WouldBlock)
+                }
+            }
+        }
+        pub fn is_poisoned(&self) -> bool {
+            self.inner.is_poisoned()
+        }
+        pub fn clear_poison(&self) {
+            self.inner.clear_poison()
+        }
+        pub fn get_mut(&mut self) -> LockResult<&mut T> {
+            self.inner.get_mut()
+        }
+        pub fn into_inner(self) -> LockResult<T> {
+            self.inner.into_inner()
+        }
+    }
+    impl<T> From<T> for Mutex<T> {
+        fn from(t: T) -> Self {
+            Self::new(t)
+        }
+    }
+    impl<T> Deref for MutexGuard<'_, T> {
+        type Target = T;
+        fn deref(&self) -> &T {
+            match self.inner.as_ref() {
+                Some(g) => g,
+                None => unreachable!(),
+            }
+        }
+    }
+    impl<T> DerefMut for MutexGuard<'_, T> {
+        fn deref_mut(&mut self) -> &mut T {
+            match self.inner.as_mut() {
+                Some(g) => g,
+                None => unreachable!(),
+            }
+        }
+    }
+    impl<T: core::fmt::Debug> core::fmt::Debug for MutexGuard<'_, T> {
+        fn fmt(&self, f: &mut core::fmt::Formatter<'_>) -> core::fmt::Result {
+            (**self).fmt(f)
+        }
+    }
+    impl<T> Drop for MutexGuard<'_, T> {
+        fn drop(&mut self) {
+            // Release the real lock first (std marks it poisoned here when
+            // unwinding), then tell the environment.
+            self.inner = None;
+            env().after_unlock(self.id, true, std::thread::panicking());
+        }
+    }
+
+    /// `std::sync::RwLock` with the same reporting.
+    #[derive(Debug, Default)]
+    pub struct RwLock<T> {
+        inner: std::sync::RwLock<T>,
+    }
+    pub struct RwLockReadGuard<'a, T> {
+        inner: Option<std::sync::RwLockReadGuard<'a, T>>,
+        id: usize,
+    }
+    pub struct RwLockWriteGuard<'a, T> {
+        inner: Option<std::sync::RwLockWriteGuard<'a, T>>,
+        id: usize,
+    }
+    impl<T> RwLock<T> {
+        pub const fn new(t: T) -> Self {
+            Self { inner: std::sync::RwLock::new(t) }
+        }
+        fn id(&self) -> usize {
+            self as *const _ as *const u8 as usize
+        }
+        pub fn read(&self) -> LockResult<RwLockReadGuard<'_, T>> {
+            let id = self.id();
+            env().before_lock(id, false, true);
+            match self.inner.read() {
+                Ok(g) => {
+                    env().after_lock(id, false, true, false);
+                    Ok(RwLockReadGuard { inner: Some(g), id })
+                }
+                Err(p) => {
+                    env().after_lock(id, false, true, true);
+                    Err(PoisonError::new(RwLockReadGuard { inner: Some(p.into_inner()), id }))
+                }
+            }
+        }
+        pub fn write(&self) -> LockResult<RwLockWriteGuard<'_, T>> {
+            let id = self.id();
+            env().before_lock(id, true, true);
+            match self.inner.write() {
+                Ok(g) => {
+                    env().after_lock(id, true, true, false);
+                    Ok(RwLockWriteGuard { inner: Some(g), id })
+                }
+                Err(p) => {
+                    env().after_lock(id, true, true, true);
+                    Err(PoisonError::new(RwLockWriteGuard { inner: Some(p.into_inner()), id }))
+                }
+            }
+        }
+        pub fn is_poisoned(&self) -> bool {
+            self.inner.is_poisoned()
+        }
+        pub fn clear_poison(&self) {
+            self.inner.clear_poison()
+        }
+    }
+    impl<T> Deref for RwLockReadGuard<'_, T> {
+        type Target = T;
+        fn deref(&self) -> &T {
+            match self.inner.as_ref() {
+                Some(g) => g,
+                None => unreachable!(),
+            }
+        }
+    }
+    impl<T> Deref for RwLockWriteGuard<'_, T> {
+        type Target = T;
+        fn deref(&self) -> &T {
+            match self.inner.as_ref() {
+                Some(g) => g,
+                None => unreachable!(),
+            }
+        }
+    }
+    impl<T> DerefMut for RwLockWriteGuard<'_, T> {
+        fn deref_mut(&mut self) -> &mut T {
+            match self.inner.as_mut() {
+                Some(g) => g,
+                None => unreachable!(),
+            }
+        }
+    }
+    impl<T> Drop for RwLockReadGuard<'_, T> {
+        fn drop(&mut self) {
+            self.inner = None;
+            env().after_unlock(self.id, false, std::thread::panicking());
+        }
+    }
+    impl<T> Drop for RwLockWriteGuard<'_, T> {
+        fn drop(&mut self) {
+            self.inner = None;
+            env().after_unlock(self.id, true, std::thread::panicking());
+        }
+    }
+
+    /// A `LazyLock` whose value a simulator can discard between runs (the
+    /// in-process stand-in for "the process was restarted"). Initialisation
+    /// is serialised like std's.
+    pub struct LazyLock<T, F = fn() -> T> {
+        cell: UnsafeCell<Option<T>>,
+        init: F,
+        once: std::sync::Mutex<()>,
+    }
+    // Same bounds as std's LazyLock (the initialiser is only called under `once`).
+    unsafe impl<T: Sync + Send, F: Send> Sync for LazyLock<T, F> {}
+    impl<T, F: Fn() -> T> LazyLock<T, F> {
+        pub const fn new(init: F) -> Self {
+            Self { cell: UnsafeCell::new(None), init, once: std::sync::Mutex::new(()) }
+        }
+        pub fn force(this: &Self) -> &T {
+            let g = this.once.lock().unwrap_or_else(|e| e.into_inner());
+            // SAFETY: the slot is only written under `once`, and only while it
+            // is `None` (or by `reset`, whose contract excludes live borrows).
+            let initialised = unsafe { (*this.cell.get()).is_some() };
+            drop(g);
+            env().lazy_force(this as *const _ as *const u8 as usize, initialised);
+            let _g = this.once.lock().unwrap_or_else(|e| e.into_inner());
+            unsafe {
+                if (*this.cell.get()).is_none() {
+                    *this.cell.get() = Some((this.init)());
+                }
+                match (*this.cell.get()).as_ref() {
+                    Some(v) => v,
+                    None => unreachable!(),
+                }
+            }
+        }
+        /// Discards the value; the next dereference initialises again.
+        ///
+        /// # Safety
+        /// No reference obtained from this `LazyLock` may be alive.
+        pub unsafe fn reset(&self) {
+            let _g = self.once.lock().unwrap_or_else(|e| e.into_inner());
+            *self.cell.get() = None;
+        }
+    }
+    impl<T, F: Fn() -> T> Deref for LazyLock<T, F> {
+        type Target = T;
+        fn deref(&self) -> &T {
+            Self::force(self)
+        }
+    }
+}
+
+/// Stand-in for `web_time::SystemTime` in `sys.rs`: `now()` asks the `Env` and
+/// returns the real type, so the caller's error mapping still runs.
+pub mod time {
+    pub struct SystemTime;
+    impl SystemTime {
+        #[allow(clippy::new_ret_no_self)]
+        pub fn now() -> web_time::SystemTime {
+            super::env().now()
+        }
+    }
+}
+
+/// Stand-in for the `iana_time_zone` crate in `sys.rs`.
+pub mod iana_time_zone {
+    pub use ::iana_time_zone::GetTimezoneError;
+    pub fn get_timezone() -> Result<alloc::string::String, GetTimezoneError> {
+        super::env().host_tz()
+    }
+}
+
+/// Stand-in for the `tzif` crate in `Tzif::from_path`: `parse_tzif_file` as in
+/// `tzif 0.3` with `File::open` replaced by `Env::open`; the same stream stack
+/// and the same parser run on whatever `Read` the environment hands out.
+#[cfg(feature = "tzdb")]
+pub mod tzif {
+    pub use ::tzif::*;
+    use combine::{stream, Parser};
+    pub fn parse_tzif_file(
+        path: &std::path::Path,
+    ) -> Result<::tzif::data::tzif::TzifData, ::tzif::error::Error> {
+        let file = super::env().open(path)?;
+        let stream = stream::buffered::Stream::new(
+            stream::position::Stream::new(stream::read::Stream::new(file)),
+            0,
+        );
+        Ok(::tzif::parse::tzif::tzif().parse(stream)?.0)
+    }
+}
+
+/// Runs `f` on the process-wide provider while holding its lock, exactly like
+/// the convenience wrappers do. A closure that panics is the "call that
+/// panics inside the provider" fault.
+#[cfg(feature = "compiled_data")]
+pub fn with_shared_provider<R>(
+    f: impl FnOnce(&crate::tzdb::FsTzdbProvider) -> R,
+) -> crate::TemporalResult<R> {
+    let provider = crate::builtins::TZ_PROVIDER
+        .lock()
+        .map_err(|_| crate::TemporalError::general("Unable to acquire lock"))?;
+    Ok(f(&provider))
+}
+
+/// Forgets the process-wide provider (cache, poison flag); the next use builds
+/// a new one.
+///
+/// # Safety
+/// No other thread may be using the convenience API.
+#[cfg(feature = "compiled_data")]
+pub unsafe fn reset_shared_provider() {
+    crate::builtins::TZ_PROVIDER.reset()
+}
